@@ -148,6 +148,12 @@ def reencode(recs, cls, rng):
                     else:
                         out.append((num, 2, enc_varint(v) if w == 0 else v))
                 continue
+            if r < 0.95 and items and f.elem.pt in VARINT_PACKED:
+                # still packed, but the ELEMENTS are non-minimal varints (seeded change C02-2: a one-byte-per-element
+                # fast path for packed bool reads 81 00 as [True, False])
+                used.add("packed-element-padding")
+                out.append((num, 2, b"".join(pad_varint(v, rng.choice([0, 1, 1, 2, 4])) for _, v in items)))
+                continue
         if f is not None and f.card in ("plain", "optional") and f.group is None and f.elem.kind == "scalar" \
                 and wt in (0, 1, 5) and rng.random() < 0.25:
             used.add("duplicate-singular")
